@@ -82,7 +82,7 @@ func (m *monC08) Step(f *Flow) {
 		}
 	}
 	for _, pb := range f.Pubs {
-		if pb.Ret == 0 || m.pubDone[pb.Idx] {
+		if pb.Ret == 0 || m.pubDone[pb.Idx] || pb.Zombie || pb.Gen != w.Gen {
 			continue
 		}
 		m.pubDone[pb.Idx] = true
@@ -101,7 +101,8 @@ type monC05 struct {
 	firstPub   [3][]*Pub       // per level: order of first complete appearance
 	seenOnConn map[string]int  // topic -> first connection id (this incarnation) with the complete packet
 	seenGen    map[string]int  // topic -> generation of that connection
-	relSeen    map[uint16]int  // PUBREL id -> first connection id
+	relSeen    map[int]int     // publish index -> first connection id with its PUBREL
+	lastRelGen int
 	relOnConn  map[[2]int]bool // (conn id, PUBREL id) seen
 	lastRelSeq int
 	relCount   int
@@ -110,7 +111,7 @@ type monC05 struct {
 
 func (m *monC05) init() {
 	if m.seenOnConn == nil {
-		m.seenOnConn, m.seenGen, m.relSeen, m.relOnConn = map[string]int{}, map[string]int{}, map[uint16]int{}, map[[2]int]bool{}
+		m.seenOnConn, m.seenGen, m.relSeen, m.relOnConn = map[string]int{}, map[string]int{}, map[int]int{}, map[[2]int]bool{}
 	}
 }
 
@@ -133,7 +134,14 @@ func (m *monC05) Wire(f *Flow, c *Conn, p *WirePkt) {
 			lvl := int(pb.QoS)
 			if n := len(m.firstPub[lvl]); n > 0 {
 				prev := m.firstPub[lvl][n-1]
-				if (seqOf(prev.ID)+1)&0x3fff != seqOf(p.ID) {
+				// an adoption with nothing pending at that level starts the sequence anew
+				restart := false
+				for g := prev.Gen + 1; g <= pb.Gen; g++ {
+					if !f.Carry[[2]int{g, lvl}] {
+						restart = true
+					}
+				}
+				if (seqOf(prev.ID)+1)&0x3fff != seqOf(p.ID) && !restart {
 					w.Violate("C05", "first-appearance-order", fmt.Sprintf("q%d", lvl), "PUBLISH %#04x (publish #%d) appears first on the wire right after %#04x (publish #%d): identifiers not consecutive", p.ID, pb.Idx, prev.ID, prev.Idx)
 				}
 			}
@@ -163,10 +171,21 @@ func (m *monC05) Wire(f *Flow, c *Conn, p *WirePkt) {
 		// retransmissions on one connection keep sequence order per level
 		m.checkResendOrder(f, c, pb, p)
 	case PUBREL:
-		first, seen := m.relSeen[p.ID]
+		rp := f.byID[p.ID]
+		if rp == nil {
+			return
+		}
+		first, seen := m.relSeen[rp.Idx]
 		if !seen {
-			m.relSeen[p.ID] = c.id
-			if m.relCount > 0 && (m.lastRelSeq+1)&0x3fff != seqOf(p.ID) {
+			m.relSeen[rp.Idx] = c.id
+			restart := false
+			for g := m.lastRelGen + 1; g <= rp.Gen; g++ {
+				if !f.Carry[[2]int{g, 2}] {
+					restart = true
+				}
+			}
+			m.lastRelGen = rp.Gen
+			if m.relCount > 0 && (m.lastRelSeq+1)&0x3fff != seqOf(p.ID) && !restart {
 				w.Violate("C05", "pubrel-order", "first", "PUBREL %#04x follows PUBREL with sequence %#04x: not the order of the PUBRECs", p.ID, m.lastRelSeq)
 			}
 			m.lastRelSeq = seqOf(p.ID)
@@ -176,13 +195,13 @@ func (m *monC05) Wire(f *Flow, c *Conn, p *WirePkt) {
 		// the broker answers each PUBLISH with one PUBREC and the resend
 		// writes each stored PUBREL once: a second PUBREL on one
 		// connection is never called for
-		if first == c.id || m.relOnConn[[2]int{c.id, int(p.ID)}] {
+		if first == c.id || m.relOnConn[[2]int{c.id, rp.Idx}] {
 			w.Violate("C05", "pubrel-twice-on-connection", "wire", "conn%d carries PUBREL %#04x twice", c.id, p.ID)
 		}
 		if f.OnlineConn == c.id {
 			w.Violate("C05", "resend-after-online", "pubrel", "conn%d: retransmission of PUBREL %#04x written after Online was signalled for this connection", c.id, p.ID)
 		}
-		m.relOnConn[[2]int{c.id, int(p.ID)}] = true
+		m.relOnConn[[2]int{c.id, rp.Idx}] = true
 	}
 }
 
@@ -209,11 +228,14 @@ func (m *monC05) Step(f *Flow) {
 		open := -1
 		for i, pb := range m.firstPub[lvl] {
 			_ = i
+			if pb.Gen != w.Gen || pb.Zombie {
+				continue
+			}
 			if !pb.ExClosed {
 				if open < 0 {
 					open = pb.Idx
 				}
-			} else if open >= 0 && pb.Gen == w.Gen {
+			} else if open >= 0 {
 				w.Violate("C05", "completion-order", fmt.Sprintf("q%d", lvl), "exchange of publish #%d closed while the earlier publish #%d of the same level is still open", pb.Idx, open)
 			}
 		}
@@ -521,7 +543,7 @@ func (m *monC17) Step(f *Flow) {
 		}
 	}
 	for _, pb := range f.Pubs {
-		if pb.Ret == 0 || m.done[pb.Idx] {
+		if pb.Ret == 0 || m.done[pb.Idx] || pb.Zombie || pb.Gen != w.Gen {
 			continue
 		}
 		m.done[pb.Idx] = true
@@ -639,7 +661,7 @@ func (m *monC14) Final(f *Flow) {
 		w.Violate("C14", "not-submitted-but-sent", "Ping", "%d PINGREQ packets on the wire but only %d Ping calls may have submitted one", sent, may)
 	}
 	for _, pb := range f.Pubs {
-		if pb.Ret == 0 || pb.Err == nil {
+		if pb.Ret == 0 || pb.Err == nil || pb.Zombie {
 			continue
 		}
 		cl := errClass(pb.Err)
